@@ -31,7 +31,7 @@ import typing
 from dataclasses import dataclass, field
 from numbers import Number
 
-from ttconv.config import ModuleConfiguration
+from ttconv.config import ModuleConfiguration, decode_bool
 from ttconv.filters.document_filter import DocumentFilter
 from ttconv.filters.remove_animations import RemoveAnimationFilter
 from ttconv.filters.supported_style_properties import SupportedStylePropertiesFilter
@@ -83,7 +83,7 @@ class LCDDocFilterConfig(ModuleConfiguration):
   safe_area: typing.Optional[int] = field(default=10, metadata={"decoder": _safe_area_decoder})
 
   # preserve text alignment
-  preserve_text_align: typing.Optional[bool] = field(default=False, metadata={"decoder": bool})
+  preserve_text_align: typing.Optional[bool] = field(default=False, metadata={"decoder": decode_bool})
 
   # overrides the text color
   color: typing.Optional[ColorType] = field(default=None, metadata={"decoder": _color_decoder})
